@@ -479,6 +479,9 @@ class SpecMixin:
             if base.ty == "str" and m in ("upper", "lower"):
                 f = self.get_uf("str_" + m, [smt.StrS], smt.StrS)
                 return SV(smt.mk_str(f(Val.s(base.t))), "str")
+            if m in ("isalnum", "isdigit", "isspace", "isidentifier", "isalpha") and not e.args:
+                f = self.get_uf("str_" + m, [smt.StrS], z3.BoolSort())
+                return sv_bool(f(Val.s(base.t)))
         raise Unsupported(f"spec call {ast.unparse(e)[:80]}")
 
 
